@@ -9,6 +9,13 @@
     * no explicitly empty `label`/`key` next to an alias (recorded finding F14);
     * no adjustment `skip` that JSON's omitempty drops (recorded finding F11);
     * nothing else written next to `cache: {disabled: true}` (such a cache is written as `false`).
+  Not a side condition any more: plugin sources. The marshaller writes `FullSource()`, so the re-parsed
+  step holds the canonical source, and comparing normal forms canonicalises it once more. Finding F17
+  (`path.Join` in `FullSource`: `plugins: ["x/y#a/../.."]` was written as `github.com`, whose own
+  canonical form was `github.com/buildkite-plugins/github.com-buildkite-plugin`) was fixed in the code
+  (commit 3ced888); canonicalisation is now idempotent for every string, theorem
+  `Marshal.fullSource_idem` (Lemmas/PluginSourceIdem.lean), and the four theorems below that compare
+  normal forms carry no hypothesis about sources.
   The YAML leg goes through the same parse function; its marshalling differs only in omitempty rules
   (documented in DESIGN.md) and is covered by the correspondence and the re-parse oracle.
 -/
